@@ -26,6 +26,8 @@ import (
 	"sync"
 	"time"
 
+	"github.com/gofiber/fiber/v3/verifrt/vtime"
+
 	"verifmc/core"
 )
 
@@ -85,6 +87,7 @@ func main() {
 	only := flag.String("only", "", "run only harness A or B (debugging)")
 	onlyCfg := flag.String("cfg", "", "harness A: run only configurations whose name contains this text (debugging)")
 	r := core.Start("C16")
+	vtime.SetClock(clock0) // constant for the whole run (set before any worker starts); see clock0
 	if pf := os.Getenv("C16_CPUPROFILE"); pf != "" { // diagnostics only
 		if f, err := os.Create(pf); err == nil {
 			_ = pprof.StartCPUProfile(f)
